@@ -181,10 +181,10 @@ ROUND7 = {
  "C07": ("/tmp/out7-C07", ["C07"], "a third of the C07 synthetic pairs give the other map an interval that is not the mirror of the checked map's", "the mismatch search takes its disparities from the other map's interval, negated", "maps whose intervals are not opposite (right interval given by the user)"),
  "C08": ("/tmp/out7-C08", ["C08", "C02"], "half of the multiband C08 cases store the bands of the second image in another order (C02 reported it unchanged)", "sad/ssd cache the band positions on the instance, reused with the images exchanged", "multiband + band order differing between the images + validation"),
  "C09": ("/tmp/out7-C09", ["C09"], "three C09 end-to-end cases per shard give the right image its own interval, in a dataset without the optional disparity_source attribute, and judge the right map against it", "run_prepare decides 'the right image has its own disparities' from the disparity_source attribute", "right dataset with a disparity variable but no disparity_source attribute + validation"),
- "C10": ("/tmp/out7-C10", [], "NOT REPORTED: needs filter_bilateral called directly, with other sigmas than the object's own, on a reused filter object (no pipeline does that)", "spatial kernel cached per window width on the filter object", "direct calls of filter_bilateral with different sigma_space of equal width on one object"),
+ "C10": ("/tmp/out7-C10", ["C10"], "C10's bilateral cases then call filter_bilateral directly on the same object with another sigma_space of equal window width", "spatial kernel cached per window width on the filter object", "direct calls of filter_bilateral with different sigma_space of equal width on one object"),
  "C11": ("/tmp/out7-C11", ["C11"], "every fifth C11 case gives the right image another mask convention (valid 5, no data 7)", "cbca reads the valid-pixel code once, from the left dataset", "left and right datasets with different valid_pixels attributes"),
  "C12": ("/tmp/out7-C12", ["C12"], "C12 gained the scale-free relation: the same volume times 2^-30 must give the same ambiguity / risk bands", "ambiguity kernels replace a cost range below float32 eps by 1", "cost volume whose global range is below 1.2e-7"),
- "C13": ("/tmp/out7-C13", [], "NOT REPORTED: needs one matching-cost object driven directly over image buffers refilled in place (a tiling driver); every pipeline builds a new object per run", "shifted right images memoised under the identity of the image array", "sad/ssd + subpix > 1 + the same numpy buffer refilled between two calls on one matching-cost object"),
+ "C13": ("/tmp/out7-C13", ["C02"], "reported by C02's new step-by-step workload (one matching-cost object over two scenes, the second written into the buffers of the first); C13's own runs go through the machine, which builds a new object per run", "shifted right images memoised under the identity of the image array", "sad/ssd + subpix > 1 + the same numpy buffer refilled between two calls on one matching-cost object"),
  "C14": ("/tmp/out7-C14", ["C14"], "", "mismatch test by magnitude (>= 512) instead of bit 9", "pixel carrying bit 10 or 11 without bit 9 (regularised intervals) + filling"),
  "C15": ("/tmp/out7-C15", ["C14"], "reported by C14 (the pyramid fills masked pixels with the sgm filling helper); C15's own monitors compare levels that are wrong in the same way on both sides", "find_valid_neighbors bounds its paths by the SMALLER image side", "non-square image + run of invalid pixels longer than the short side"),
  "C16": ("/tmp/out7-C16", ["C16"], "", "'nothing to flag' tested with np.any over the index arrays", "no input mask + a single no-data sample at row 0, column 0"),
